@@ -32,6 +32,8 @@ type Target struct {
 	Salt    int      `json:"salt"`   // literal inside the body code
 	Helper  int      `json:"helper"` // helper module used by templates 5 and 6
 	Emit    []string `json:"emit,omitempty"`
+	Prints  []string `json:"prints,omitempty"`  // print() calls made before the emitted chunks
+	FwdDeps []int    `json:"fwddeps,omitempty"` // extra dependency labels on targets with the same or a higher ID (cycles; not read by the body)
 	Doc     int      `json:"doc,omitempty"` // docstring variant (0 = none)
 	Removed bool     `json:"removed,omitempty"`
 }
@@ -108,6 +110,8 @@ func (m *Model) Clone() *Model {
 		t.Sources = append([]string{}, t.Sources...)
 		t.GenSrc = append([]int{}, t.GenSrc...)
 		t.Emit = append([]string{}, t.Emit...)
+		t.Prints = append([]string{}, t.Prints...)
+		t.FwdDeps = append([]int{}, t.FwdDeps...)
 		c.Targets[i] = t
 	}
 	c.Files = map[string]string{}
@@ -415,6 +419,9 @@ func (m *Model) renderTarget(t *Target) string {
 		deps = append(deps, fmt.Sprintf("vf.read(%s)", quote(m.OutPath(d))))
 	}
 	fmt.Fprintf(&b, "%sdeps = [%s]\n", indent, strings.Join(deps, ", "))
+	for _, p := range t.Prints {
+		fmt.Fprintf(&b, "%sprint(%s)\n", indent, quote(p))
+	}
 	if len(t.Emit) > 0 {
 		q := make([]string, len(t.Emit))
 		for i, c := range t.Emit {
@@ -438,8 +445,13 @@ func (m *Model) renderTarget(t *Target) string {
 	// target declaration
 	var args []string
 	args = append(args, fmt.Sprintf("name=%s", quote(t.Name())))
-	if len(t.Deps) > 0 {
+	if len(t.Deps)+len(t.FwdDeps) > 0 {
 		var ds []string
+		for _, d := range t.FwdDeps {
+			if d < len(m.Targets) {
+				ds = append(ds, quote(m.Label(d)))
+			}
+		}
 		for _, d := range t.Deps {
 			dt := m.Targets[d]
 			switch {
